@@ -20,6 +20,8 @@ type groupOwner struct {
 // sample is called by the driver right after synctest.Wait: every library
 // goroutine is durably blocked. Caller holds d.mu.
 func (d *Driver) sample() {
+	inSample.Store(true)
+	defer inSample.Store(false)
 	now := d.lastNow
 	p := d.plan
 	j18 := p.judges("C18")
